@@ -3,6 +3,7 @@ CONSTANTS
   EdgeMaxN = @@EdgeMaxN@@
   BinP <- @@BinP@@
   HypN <- @@HypN@@
+  WalkMax = @@WalkMax@@
 SPECIFICATION Spec
-INVARIANTS Check Emit
+INVARIANTS Check Emit WalkCheck WalkEmit
 CHECK_DEADLOCK FALSE
